@@ -1046,16 +1046,15 @@ end Contact
 Table `all_alerts` (primary key alert_id, UNIQUE alert_name over ALL orgs, org_id, contact_id, contact_name
 copied from the contact).  CreateAlert :210 (`isValid(name)`: not "" and not "*"; `isNewAlertName` :141
 answers true on BOTH branches, so a duplicate name is only caught by the UNIQUE index when the row is
-inserted; the contact must exist — in whatever org), GetAlert :272 (an unknown id answers an EMPTY alert, no
-error; no org check), UpdateAlert :361 as called by ProcessUpdateAlertRequest (GetAlert, overwrite the
-configuration fields, UpdateAlert: name valid, alert exists — the empty id of an unknown alert is "not valid" —,
+inserted; the contact must exist — in whatever org), GetAlert :272 (WITH patch c20-22 an unknown id is refused
+"alert does not exist"; before it answered an EMPTY alert and no error, kept as `stepUnknownIdOld`; no org check), UpdateAlert :361 as called by ProcessUpdateAlertRequest (GetAlert, overwrite the
+configuration fields, UpdateAlert: name valid, alert exists,
 a CHANGED contact must exist and its name is copied, Save fails on a duplicate name; the row keeps its org),
 DeleteAlert :445, GetAllAlerts :298.  The auxiliary contact create follows patch c20-8.
 The suite drives the REQUEST HANDLERS (ProcessCreate/Update/Delete/GetAlertRequest; the org of a request is
 resolved by the org id hook), WITH patches c20-16 (the created alert belongs to the org of the request, whatever
 org_id the body carries) and c20-18 (`getAlertOfRequest`: update / delete / get answer an alert of another org
-like one that does not exist; the EMPTY alert that GetAlert returns for an unknown id has org 0, so an unknown id
-is "does not exist" for every org but org 0, where the old answers remain).  The behaviour before c20-18 is kept
+like one that does not exist; an unknown id is "does not exist" for every org, c20-22).  The behaviour before c20-18 is kept
 as `stepNoOrg`, the create before c20-16 as `createBodyOrg`.
 Alerts and contacts are numbered separately from 1. -/
 namespace AlertDB
@@ -1114,7 +1113,7 @@ def step (st : St) : Op → St × Out
                  nextA := st.nextA + 1 }, .created st.nextA)
   | .update t id name msg cid =>
     match st.alerts.get id with
-    | none => if t ≠ 0 then (st, .res .notFound) else (st, .res .invalid)   -- the empty alert has org 0 and the id ""
+    | none => (st, .res .notFound)                       -- c20-22: GetAlert refuses an unknown id
     | some r =>
       if r.org ≠ t then (st, .res .notFound) else        -- c20-18
       if !validName name then (st, .res .invalid) else
@@ -1130,10 +1129,24 @@ def step (st : St) : Op → St × Out
     | some r => if r.org ≠ t then (st, .res .notFound) else ({ st with alerts := st.alerts.del id }, .res .ok)
   | .get t id =>
     match st.alerts.get id with
-    | none => if t ≠ 0 then (st, .res .notFound) else (st, .noAlert)
+    | none => (st, .res .notFound)                       -- c20-22
     | some r => if r.org ≠ t then (st, .res .notFound) else (st, .alert id r)
   | .list t => (st, .rows (st.alerts.filter (fun e => e.2.org = t)))
   | .restart => (st, .restarted)
+
+/-- the behaviour before patch c20-22 (with c20-16 / c20-18): GetAlert answered an unknown id with an EMPTY alert and
+no error (gorm `Find`); the empty alert has org 0 and the id "", so for org 0 a get of an unknown id was answered
+200 with the empty alert and an update of it "alert id not valid"; every other org was told "does not exist" -/
+def stepUnknownIdOld (st : St) : Op → St × Out
+  | .update t id name msg cid =>
+    match st.alerts.get id with
+    | none => if t ≠ 0 then (st, .res .notFound) else (st, .res .invalid)
+    | some _ => step st (.update t id name msg cid)
+  | .get t id =>
+    match st.alerts.get id with
+    | none => if t ≠ 0 then (st, .res .notFound) else (st, .noAlert)
+    | some _ => step st (.get t id)
+  | op => step st op
 
 /-- the behaviour before patch c20-18: update / delete / get address an alert by its id alone -/
 def stepNoOrg (st : St) : Op → St × Out
@@ -1177,10 +1190,13 @@ end AlertDB
 
 /-! ## lookup files (pkg/lookups/lookups.go)
 
-A directory of files under `<data>/lookups/`; no in-memory state and NO tenant dimension (the handlers
-take no org id).  UploadLookupFile :39 (the name must be a simple file name; ".csv" / ".csv.gz" is appended
-unless the name already ends in one of them, case-insensitively; an existing file is replaced only with
-overwrite=true, otherwise 409), GetLookupFile :173, DeleteLookupFile :201, GetAllLookupFiles :133. -/
+One directory of files per org and no in-memory state: org 0 keeps `<data>/lookups/`, every other org the
+sub-directory `<data>/lookups/<org>/` (config.GetLookupPathForOrg; WITH patch c13-1 — before it the handlers took no
+org id and all orgs shared the one directory: `stepOld`).  UploadLookupFile (the name must be a simple file name;
+".csv" / ".csv.gz" is appended unless the name already ends in one of them, case-insensitively; an existing file is
+replaced only with overwrite=true, otherwise 409), GetLookupFile / DeleteLookupFile (a name without one of the two
+extensions is no lookup file: not found — the directory of org 0 also holds the sub-directories of the other orgs),
+GetAllLookupFiles (the regular files of the org's directory). -/
 namespace Lookup
 
 def asciiLower (c : Nat) : Nat := if 65 ≤ c ∧ c ≤ 90 then c + 32 else c
@@ -1190,20 +1206,24 @@ def endsWithCI (name suffix : Key) : Bool := (name.map asciiLower).reverse.take 
 def csv : Key := [46, 99, 115, 118]
 def csvgz : Key := [46, 99, 115, 118, 46, 103, 122]
 
+/-- `hasLookupFileExt` -/
+def hasExt (name : Key) : Bool := endsWithCI name csv || endsWithCI name csvgz
+
 /-- the file name an upload is stored under -/
 def norm (name : Key) (gz : Bool) : Key :=
   if endsWithCI name csv || endsWithCI name csvgz then name else name ++ (if gz then csvgz else csv)
 
 structure St where
-  files : AL Key String
+  /-- the regular files of the directory of each org -/
+  files : Nat → AL Key String
 
-def init : St := { files := [] }
+def init : St := { files := fun _ => [] }
 
 inductive Op where
-  | upload (name : Key) (content : String) (overwrite gz : Bool)
-  | get (name : Key)
-  | delete (name : Key)
-  | list
+  | upload (t : Nat) (name : Key) (content : String) (overwrite gz : Bool)
+  | get (t : Nat) (name : Key)
+  | delete (t : Nat) (name : Key)
+  | list (t : Nat)
   | restart
 
 inductive Out where
@@ -1215,46 +1235,67 @@ inductive Out where
   deriving DecidableEq
 
 def step (st : St) : Op → St × Out
-  | .upload name content overwrite gz =>
+  | .upload t name content overwrite gz =>
     if !Alias.validIndex name then (st, .res .invalid) else
     let final := norm name gz
-    match st.files.get final with
-    | some _ => if overwrite then ({ files := st.files.put final content }, .stored final) else (st, .res .exists_)
-    | none => ({ files := st.files.put final content }, .stored final)
-  | .get name =>
-    match st.files.get name with
+    match (st.files t).get final with
+    | some _ => if overwrite then ({ files := upd st.files t ((st.files t).put final content) }, .stored final) else (st, .res .exists_)
+    | none => ({ files := upd st.files t ((st.files t).put final content) }, .stored final)
+  | .get t name =>
+    if !hasExt name then (st, .res .notFound) else
+    match (st.files t).get name with
     | some c => (st, .content c)
     | none => (st, .res .notFound)
-  | .delete name =>
-    match st.files.get name with
-    | some _ => ({ files := st.files.del name }, .res .ok)
+  | .delete t name =>
+    if !hasExt name then (st, .res .notFound) else
+    match (st.files t).get name with
+    | some _ => ({ files := upd st.files t ((st.files t).del name) }, .res .ok)
     | none => (st, .res .notFound)
-  | .list => (st, .names st.files.keys)
+  | .list t => (st, .names (st.files t).keys)
   | .restart => (st, .restarted)
 
-/-- abstract state: one tenant (`Unit`), file name ↦ content -/
-def abs (st : St) : Spec Unit Key String := fun _ k => st.files.get k
+/-- BEFORE patch c13-1: the handlers took no org id — every request, whatever its org, worked on the directory of
+org 0 (and no extension was asked of a name that is read or deleted) -/
+def stepOld (st : St) : Op → St × Out
+  | .upload _ name content overwrite gz => step st (.upload 0 name content overwrite gz)
+  | .get _ name =>
+    match (st.files 0).get name with
+    | some c => (st, .content c)
+    | none => (st, .res .notFound)
+  | .delete _ name =>
+    match (st.files 0).get name with
+    | some _ => ({ files := upd st.files 0 ((st.files 0).del name) }, .res .ok)
+    | none => (st, .res .notFound)
+  | .list _ => (st, .names (st.files 0).keys)
+  | .restart => (st, .restarted)
 
-def specStep (s : Spec Unit Key String) : Op → Spec Unit Key String
-  | .upload name content overwrite gz =>
+/-- abstract state: (org, file name) ↦ content -/
+def abs (st : St) : Spec Nat Key String := fun t k => (st.files t).get k
+
+def specStep (s : Spec Nat Key String) : Op → Spec Nat Key String
+  | .upload t name content overwrite gz =>
     if !Alias.validIndex name then s else
-    if overwrite then (s.put () (norm name gz) content).1 else (s.create () (norm name gz) content).1
-  | .delete name => (s.delete () name).1
+    if overwrite then (s.put t (norm name gz) content).1 else (s.create t (norm name gz) content).1
+  | .delete t name => (s.delete t name).1
   | _ => s
 
 /-- `o` is the documented answer to `op` in the abstract state `s` -/
-def OutOk (s : Spec Unit Key String) : Op → Out → Prop
-  | .upload name content overwrite gz, o =>
+def OutOk (s : Spec Nat Key String) : Op → Out → Prop
+  | .upload t name content overwrite gz, o =>
     o = (if !Alias.validIndex name then .res .invalid
          else if overwrite then .stored (norm name gz)
-         else if (s.create () (norm name gz) content).2 = .ok then .stored (norm name gz) else .res .exists_)
-  | .get name, o => o = (match s () name with | some c => .content c | none => .res .notFound)
-  | .delete name, o => o = .res (s.delete () name).2
-  | .list, .names l => l.Nodup ∧ ∀ k, k ∈ l ↔ s () k ≠ none
+         else if (s.create t (norm name gz) content).2 = .ok then .stored (norm name gz) else .res .exists_)
+  | .get t name, o => o = (match s t name with | some c => .content c | none => .res .notFound)
+  | .delete t name, o => o = .res (s.delete t name).2
+  | .list t, .names l => l.Nodup ∧ ∀ k, k ∈ l ↔ s t k ≠ none
   | .restart, o => o = .restarted
   | _, _ => False
 
-def Refines : Spec Unit Key String → St → List Op → Prop
+/-- the tenant an operation addresses -/
+def Op.tenant : Op → Option Nat
+  | .upload t _ _ _ _ => some t | .get t _ => some t | .delete t _ => some t | .list t => some t | .restart => none
+
+def Refines : Spec Nat Key String → St → List Op → Prop
   | _, _, [] => True
   | s, st, op :: r =>
     OutOk s op (step st op).2 ∧ abs (step st op).1 = specStep s op ∧ Refines (specStep s op) (step st op).1 r
@@ -1264,6 +1305,13 @@ def run (st : St) : List Op → St × List Out
   | op :: r =>
     let (st1, o) := step st op
     let (st2, os) := run st1 r
+    (st2, o :: os)
+
+def runOld (st : St) : List Op → St × List Out
+  | [] => (st, [])
+  | op :: r =>
+    let (st1, o) := stepOld st op
+    let (st2, os) := runOld st1 r
     (st2, o :: os)
 
 end Lookup
